@@ -2831,3 +2831,584 @@ Proof.
   intros Hg s k x H. pose proof (FInv_frun ops f_init FInv_init Hg) as HF. fold s in HF.
   cbn [fstep]. pose proof (retrier_run_keeps t atts s HF) as K. destruct (f_retrier_run s t atts) as [s' o]. cbn [fst] in *. apply K, H.
 Qed.
+
+(* ====================================================================== *)
+(* abort freedom of the store primitives (in states of the invariant)      *)
+(* ====================================================================== *)
+Lemma db_insert_succeeds d tb r :
+  (tb < length d)%nat -> length r = ts_arity (tsch CS tb) -> has_pk CS d tb (proj r (ts_pk (tsch CS tb))) = false ->
+  forallb (parent_present d r) (ts_fks (tsch CS tb)) = true -> exists d', db_insert CS d tb r = DbOk d'.
+Proof.
+  intros H1 H2 H3 H4. unfold db_insert. apply Nat.ltb_lt in H1. apply Nat.eqb_eq in H2. rewrite H1, H2, H3, H4. cbn. eexists. reflexivity.
+Qed.
+
+Lemma tower_parent d t r cols :
+  Trow d t -> proj r cols = [t] -> parent_present d r (mk_fkey cols T_towers [C_towers_tower_id] true) = true.
+Proof.
+  intros [tr [A B]] Hp. apply parent_present_iff. exists tr. cbn [fk_parent fk_pcols fk_cols]. split; [exact A|].
+  rewrite Hp, proj1_col, B. reflexivity.
+Qed.
+
+Lemma DbInv_len d : DbInv d -> length d = 8%nat.
+Proof. intros [_ [_ [L _]]]. exact L. Qed.
+
+Lemma store_receipt_succeeds d t l slots sb u g :
+  DbInv d -> Trow d t -> ~ Rrow d t l -> exists d', dbm_store_appointment_receipt d t l slots sb u g = DbOk d'.
+Proof.
+  intros HD HT HR. unfold dbm_store_appointment_receipt. rewrite receipt_row_eq.
+  destruct (db_insert_succeeds d T_appointment_receipts [l; t; sb; u; g]) as [d1 E1].
+  - rewrite (DbInv_len d HD). unfold T_appointment_receipts. lia.
+  - reflexivity.
+  - destruct (has_pk CS d T_appointment_receipts (proj [l; t; sb; u; g] (ts_pk (tsch CS T_appointment_receipts)))) eqn:E; [|reflexivity].
+    exfalso. apply HR. apply has_receipt_row_iff. exact E.
+  - cbn [ts_fks tsch CS client_schema nth T_appointment_receipts forallb]. rewrite andb_true_r.
+    apply (tower_parent d t). exact HT. reflexivity.
+  - rewrite E1. unfold db_update. cbn. eexists. reflexivity.
+Qed.
+
+Lemma exec_ignore_body d l b dl : DbInv d ->
+  let d1 := exec_ignore CS d (SInsert T_appointments (body_row l b dl)) in
+  (exists row, In row (tbl d1 T_appointments) /\ col row C_appointments_locator = l) /\ length d1 = 8%nat /\
+  (forall c, c <> T_appointments -> tbl d1 c = tbl d c).
+Proof.
+  intros HD. cbn zeta. destruct (exec_ignore_insert_frame d T_appointments (body_row l b dl)) as [F L]. rewrite L, (DbInv_len d HD).
+  split; [|split; [reflexivity|exact F]].
+  unfold exec_ignore. cbn [exec]. rewrite body_row_eq. destruct (db_insert CS d T_appointments [l; b; dl]) as [d1|e] eqn:E.
+  - apply tbl_insert in E. destruct E as [T _]. exists [l; b; dl]. split; [rewrite T; apply in_or_app; right; left; reflexivity|reflexivity].
+  - (* the insert failed: only because the body is already there *)
+    unfold db_insert in E. rewrite (DbInv_len d HD) in E.
+    replace (negb (T_appointments <? 8)%nat || negb (length [l; b; dl] =? ts_arity (tsch CS T_appointments))%nat) with false in E by reflexivity.
+    destruct (has_pk CS d T_appointments (proj [l; b; dl] (ts_pk (tsch CS T_appointments)))) eqn:Eh.
+    + apply has_pk_true in Eh. destruct Eh as [row [A B]]. exists row. split; [exact A|]. cbn in B. inversion B. reflexivity.
+    + cbn in E. discriminate.
+Qed.
+
+Lemma body_parent d l r cols :
+  (exists row, In row (tbl d T_appointments) /\ col row C_appointments_locator = l) -> proj r cols = [l] ->
+  parent_present d r (mk_fkey cols T_appointments [C_appointments_locator] true) = true.
+Proof.
+  intros [row [A B]] Hp. apply parent_present_iff. exists row. cbn [fk_parent fk_pcols fk_cols]. split; [exact A|].
+  rewrite Hp, proj1_col, B. reflexivity.
+Qed.
+
+Lemma store_pending_succeeds d t l b dl :
+  DbInv d -> Trow d t -> ~ Prow d t l -> exists d', dbm_store_pending_appointment d t l b dl = DbOk d'.
+Proof.
+  intros HD HT HP. unfold dbm_store_pending_appointment. rewrite mkrow_pending.
+  destruct (exec_ignore_body d l b dl HD) as [Hb [L F]]. set (d1 := exec_ignore CS d (SInsert T_appointments (body_row l b dl))) in *.
+  apply db_insert_succeeds.
+  - rewrite L. unfold T_pending_appointments, T_invalid_appointments. lia.
+  - reflexivity.
+  - destruct (has_pk CS d1 T_pending_appointments (proj [l; t] (ts_pk (tsch CS T_pending_appointments)))) eqn:E; [|reflexivity].
+    exfalso. apply HP. apply has_pending_row_iff. unfold has_pending_row, has_pk in *. rewrite <- (F T_pending_appointments) by discriminate. exact E.
+  - cbn [ts_fks tsch CS client_schema nth T_pending_appointments forallb]. rewrite andb_true_r. apply andb_true_iff. split.
+    + apply (body_parent d1 l). exact Hb. reflexivity.
+    + apply (tower_parent d1 t); [|reflexivity]. destruct HT as [tr [A B]]. exists tr. split; [rewrite F by discriminate; exact A|exact B].
+Qed.
+
+Lemma store_invalid_succeeds d t l b dl :
+  DbInv d -> Trow d t -> ~ Irow d t l -> exists d', dbm_store_invalid_appointment d t l b dl = DbOk d'.
+Proof.
+  intros HD HT HP. unfold dbm_store_invalid_appointment. rewrite mkrow_invalid.
+  destruct (exec_ignore_body d l b dl HD) as [Hb [L F]]. set (d1 := exec_ignore CS d (SInsert T_appointments (body_row l b dl))) in *.
+  apply db_insert_succeeds.
+  - rewrite L. unfold T_pending_appointments, T_invalid_appointments. lia.
+  - reflexivity.
+  - destruct (has_pk CS d1 T_invalid_appointments (proj [l; t] (ts_pk (tsch CS T_invalid_appointments)))) eqn:E; [|reflexivity].
+    exfalso. apply HP. apply has_invalid_row_iff. unfold has_invalid_row, has_pk in *. rewrite <- (F T_invalid_appointments) by discriminate. exact E.
+  - cbn [ts_fks tsch CS client_schema nth T_invalid_appointments forallb]. rewrite andb_true_r. apply andb_true_iff. split.
+    + apply (body_parent d1 l). exact Hb. reflexivity.
+    + apply (tower_parent d1 t); [|reflexivity]. destruct HT as [tr [A B]]. exists tr. split; [rewrite F by discriminate; exact A|exact B].
+Qed.
+
+Lemma store_proof_succeeds d t l sb u g rc :
+  DbInv d -> Trow d t -> ~ Rrow d t l -> ~ Mrow d t -> exists d', dbm_store_misbehaving_proof d t l sb u g rc = DbOk d'.
+Proof.
+  intros HD HT HR HM. unfold dbm_store_misbehaving_proof. rewrite receipt_row_eq, mkrow_proof.
+  destruct (db_insert_succeeds d T_appointment_receipts [l; t; sb; u; g]) as [d1 E1].
+  - rewrite (DbInv_len d HD). unfold T_appointment_receipts. lia.
+  - reflexivity.
+  - destruct (has_pk CS d T_appointment_receipts (proj [l; t; sb; u; g] (ts_pk (tsch CS T_appointment_receipts)))) eqn:E; [|reflexivity].
+    exfalso. apply HR. apply has_receipt_row_iff. exact E.
+  - cbn [ts_fks tsch CS client_schema nth T_appointment_receipts forallb]. rewrite andb_true_r. apply (tower_parent d t). exact HT. reflexivity.
+  - rewrite E1. pose proof (tbl_insert CS d _ _ d1 E1) as [T1 [O1 L1]].
+    apply db_insert_succeeds.
+    + rewrite L1, (DbInv_len d HD). unfold T_misbehaving_proofs. lia.
+    + reflexivity.
+    + destruct (has_pk CS d1 T_misbehaving_proofs (proj [t; l; rc] (ts_pk (tsch CS T_misbehaving_proofs)))) eqn:E; [|reflexivity].
+      exfalso. apply HM. apply proof_iff. unfold exists_misbehaving_proof, has_pk in *. rewrite <- (O1 T_misbehaving_proofs) by discriminate. exact E.
+    + cbn [ts_fks tsch CS client_schema nth T_misbehaving_proofs forallb]. rewrite andb_true_r.
+      apply parent_present_iff. exists [l; t; sb; u; g]. cbn [fk_parent fk_pcols fk_cols]. unfold T_appointment_receipts in T1. split; [rewrite T1; apply in_or_app; right; left; reflexivity|reflexivity].
+Qed.
+
+Lemma add_receipt_ok c t l slots sb u g : Inv c -> c_poisoned c = false -> knownc c t ->
+  snd (wt_add_appointment_receipt c t l slots sb u g) = ROk.
+Proof.
+  intros HI Hp Hk. pose proof (proj1 (known_iff_Trow c t HI Hp) Hk) as HT. unfold wt_add_appointment_receipt.
+  unfold knownc, amem in Hk. destruct (aget (c_towers c) t); [|discriminate].
+  destruct (dbm_load_appointment_receipt (c_db c) t l) eqn:El; [reflexivity|].
+  destruct (store_receipt_succeeds (c_db c) t l slots sb u g (proj1 HI) HT) as [d' ->]; [|reflexivity].
+  intros HR. apply has_receipt_row_iff in HR. unfold has_receipt_row in HR. rewrite has_pk_find in HR.
+  unfold dbm_load_appointment_receipt in El. rewrite El in HR. discriminate.
+Qed.
+
+Lemma add_pending_ok c t l b dl : Inv c -> c_poisoned c = false -> knownc c t ->
+  snd (wt_add_pending_appointment c t l b dl) = ROk.
+Proof.
+  intros HI Hp Hk. pose proof (proj1 (known_iff_Trow c t HI Hp) Hk) as HT. unfold wt_add_pending_appointment.
+  unfold knownc, amem in Hk. destruct (aget (c_towers c) t) as [su|] eqn:Et; [|discriminate].
+  destruct (memN l (su_pending su)) eqn:Em; [reflexivity|].
+  destruct (store_pending_succeeds (c_db c) t l b dl (proj1 HI) HT) as [d' ->]; [|reflexivity].
+  intros HP. destruct HI as [HD HM]. destruct (proj1 (HM Hp) t su Et) as [tr [rr [_ [_ [_ [_ [_ [_ [C5 _]]]]]]]]].
+  assert (In l (su_pending su)); [|apply memN_In in H; congruence].
+  apply C5, In_pending_locators. destruct HP as [row [A [B C]]]. exists row. auto.
+Qed.
+
+Lemma add_invalid_ok c t l b dl : Inv c -> c_poisoned c = false -> knownc c t ->
+  snd (wt_add_invalid_appointment c t l b dl) = ROk.
+Proof.
+  intros HI Hp Hk. pose proof (proj1 (known_iff_Trow c t HI Hp) Hk) as HT. unfold wt_add_invalid_appointment.
+  unfold knownc, amem in Hk. destruct (aget (c_towers c) t) as [su|] eqn:Et; [|discriminate].
+  destruct (memN l (su_invalid su)) eqn:Em; [reflexivity|].
+  destruct (store_invalid_succeeds (c_db c) t l b dl (proj1 HI) HT) as [d' ->]; [|reflexivity].
+  intros HP. destruct HI as [HD HM]. destruct (proj1 (HM Hp) t su Et) as [tr [rr [_ [_ [_ [_ [_ [_ [_ C6]]]]]]]]].
+  assert (In l (su_invalid su)); [|apply memN_In in H; congruence].
+  apply C6, In_invalid_locators. destruct HP as [row [A [B C]]]. exists row. auto.
+Qed.
+
+Lemma flag_ok c t l sb u g rc : Inv c -> c_poisoned c = false -> knownc c t -> ~ Rrow (c_db c) t l -> ~ Mrow (c_db c) t ->
+  snd (wt_flag_misbehaving_tower c t l sb u g rc) = ROk.
+Proof.
+  intros HI Hp Hk HR HM. pose proof (proj1 (known_iff_Trow c t HI Hp) Hk) as HT. unfold wt_flag_misbehaving_tower.
+  unfold knownc, amem in Hk. destruct (aget (c_towers c) t); [|discriminate].
+  destruct (store_proof_succeeds (c_db c) t l sb u g rc (proj1 HI) HT HR HM) as [d' ->]. reflexivity.
+Qed.
+
+(* when flagging aborts, it is the duplicate-proof site *)
+Lemma flag_abort_site c t l sb u g rc st : snd (wt_flag_misbehaving_tower c t l sb u g rc) = RAbort st -> st = Site_store_misbehaving_proof_unwrap.
+Proof.
+  unfold wt_flag_misbehaving_tower. destruct (aget (c_towers c) t); [|discriminate].
+  destruct (dbm_store_misbehaving_proof (c_db c) t l sb u g rc); [discriminate|]. cbn. intros H. inversion H. reflexivity.
+Qed.
+
+(* ====================================================================== *)
+(* C14 no_reply_aborts                                                    *)
+(* ====================================================================== *)
+Definition PROOF_SITE : fsite := SClient Site_store_misbehaving_proof_unwrap.
+
+Lemma classic_Mrow d t : Mrow d t \/ ~ Mrow d t.
+Proof. destruct (exists_misbehaving_proof d t) eqn:E; [left; apply proof_iff, E|right; intros H; apply proof_iff in H; congruence]. Qed.
+
+Lemma rev_pend_no_abort s0 l t send : Inv (f_c s0) -> poisoned s0 = false -> knownc (f_c s0) t -> snd (rev_pend s0 l t send) = None.
+Proof.
+  intros HI Hp Hk. unfold rev_pend. pose proof (add_pending_ok (f_c s0) t l BLOB DELAY HI Hp Hk) as H.
+  destruct (wt_add_pending_appointment (f_c s0) t l BLOB DELAY) as [c2 r]. cbn [snd] in H. subst r. reflexivity.
+Qed.
+
+(* the notification path: whatever the tower replies, the handler does not panic — except when a tower whose
+   misbehaviour proof is ALREADY stored answers with another key's signature again (duplicate proof) *)
+Lemma rev_tower_no_abort s l t st rp :
+  FInv s -> poisoned s = false -> knownc (f_c s) t ->
+  snd (rev_tower s l t st rp) = None \/
+  (snd (rev_tower s l t st rp) = Some PROOF_SITE /\ rp = AWrongKey /\ Mrow (c_db (f_c s)) t).
+Proof.
+  intros HF Hp Hk. pose proof HF as [HI _]. unfold rev_tower. rewrite Hp.
+  pose proof (has_appointment_iff _ t l HI Hp Hk) as Hha.
+  destruct (wt_has_appointment (f_c s) t l) eqn:Eha; [left; reflexivity|].
+  assert (NR : ~ Rrow (c_db (f_c s)) t l) by (intros H; assert (false = true) by (apply Hha; tauto); discriminate).
+  set (s1 := log_req s (ReqAdd t l)).
+  assert (Hst : forall st', Inv (f_c (set_c s1 (wt_set_tower_status (f_c s1) t st'))) /\ poisoned (set_c s1 (wt_set_tower_status (f_c s1) t st')) = false /\
+                            knownc (f_c (set_c s1 (wt_set_tower_status (f_c s1) t st'))) t).
+  { intros st'. cbn [f_c set_c]. split; [apply Inv_set_status, HI|]. split; [unfold poisoned; cbn [f_c set_c]; rewrite poisoned_set_status; exact Hp|].
+    apply knownc_set_status. exact Hk. }
+  destruct (is_reachable st).
+  - destruct rp as [slots| | | | | | |].
+    + left. pose proof (add_receipt_ok (f_c s1) t l slots START_BLOCK USER_SIG SIG_TOWER HI Hp Hk) as H.
+      destruct (wt_add_appointment_receipt (f_c s1) t l slots START_BLOCK USER_SIG SIG_TOWER) as [c2 r]. cbn [snd] in *. subst r. reflexivity.
+    + destruct (wt_flag_misbehaving_tower (f_c s1) t l START_BLOCK USER_SIG SIG_OTHER (other_id t)) as [c2 r] eqn:E. cbn [snd].
+      destruct r; try (left; reflexivity). right.
+      pose proof (flag_abort_site (f_c s1) t l START_BLOCK USER_SIG SIG_OTHER (other_id t) s0) as Hs. rewrite E in Hs. cbn [snd] in Hs. rewrite (Hs eq_refl).
+      split; [reflexivity|]. split; [reflexivity|].
+      destruct (classic_Mrow (c_db (f_c s)) t) as [Hm|Hm]; [exact Hm|]. exfalso.
+      pose proof (flag_ok (f_c s1) t l START_BLOCK USER_SIG SIG_OTHER (other_id t) HI Hp Hk NR Hm) as Hok. rewrite E in Hok. discriminate.
+    + left. destruct (Hst TemporaryUnreachable) as [A [B C]]. apply rev_pend_no_abort; assumption.
+    + left. destruct (Hst TemporaryUnreachable) as [A [B C]]. apply rev_pend_no_abort; assumption.
+    + left. destruct (Hst TemporaryUnreachable) as [A [B C]]. apply rev_pend_no_abort; assumption.
+    + left. destruct (Hst TemporaryUnreachable) as [A [B C]]. apply rev_pend_no_abort; assumption.
+    + left. destruct (Hst SubscriptionError) as [A [B C]]. apply rev_pend_no_abort; assumption.
+    + left. pose proof (add_invalid_ok (f_c s1) t l BLOB DELAY HI Hp Hk) as H.
+      destruct (wt_add_invalid_appointment (f_c s1) t l BLOB DELAY) as [c2 r]. cbn [snd] in *. subst r. reflexivity.
+  - destruct (is_misbehaving st); [left; reflexivity|]. left. apply rev_pend_no_abort; assumption.
+Qed.
+
+Lemma rev_loop_no_abort l replies : forall snap s,
+  FInv s -> poisoned s = false ->
+  (forall t st, In (t, st) snap -> knownc (f_c s) t /\ (st = Misbehaving -> Mrow (c_db (f_c s)) t)) ->
+  snd (rev_loop s l snap replies) = None \/
+  (exists t, reply_for replies t = AWrongKey /\ snd (rev_loop s l snap replies) = Some PROOF_SITE).
+Proof.
+  induction snap as [|[t st] snap IH]; intros s HF Hp Hsn; cbn [rev_loop]; [left; reflexivity|].
+  destruct (Hsn t st (or_introl eq_refl)) as [Hk Hm].
+  pose proof (rev_tower_no_abort s l t st (reply_for replies t) HF Hp Hk) as Hna.
+  destruct (rev_tower s l t st (reply_for replies t)) as [s1 o1] eqn:E1. cbn [snd] in Hna.
+  destruct (FInv_rev_tower s l t st _ s1 o1 HF Hk Hm E1) as [HF1 [_ [Hg1 [Hkn1 Hok1]]]].
+  destruct o1 as [site|].
+  - cbn [snd]. destruct Hna as [Hna|[Hs [Hw _]]]; [discriminate|]. right. exists t. split; [exact Hw|exact Hs].
+  - destruct (Hok1 eq_refl) as [Hp1 _]. apply IH; [exact HF1|exact Hp1|].
+    intros t0 st0 Hin. destruct (Hsn t0 st0 (or_intror Hin)) as [A B]. split; [apply Hkn1, A|]. intros H. apply Hg1, B, H.
+Qed.
+
+Lemma revocation_no_abort s l order replies :
+  FInv s -> poisoned s = false ->
+  snd (f_revocation s l order replies) = OOk \/
+  (exists t, reply_for replies t = AWrongKey /\ snd (f_revocation s l order replies) = OPanic PROOF_SITE).
+Proof.
+  intros HF Hp. unfold f_revocation. rewrite Hp.
+  set (snap := reorder_towers order (towers_snapshot (f_c s))).
+  assert (Hsn : forall t st, In (t, st) snap -> knownc (f_c s) t /\ (st = Misbehaving -> Mrow (c_db (f_c s)) t)).
+  { intros t st Hin. apply reorder_towers_In, towers_snapshot_In in Hin. destruct HF as [_ [_ [HV _]]]. destruct (HV Hp) as [V1 _].
+    split; [|intros ->; apply V1, Hin]. unfold knownc, amem. unfold stat in Hin. destruct (aget (c_towers (f_c s)) t); [reflexivity|discriminate]. }
+  pose proof (rev_loop_no_abort l replies snap s HF Hp Hsn) as H.
+  destruct (rev_loop s l snap replies) as [s1 o]. cbn [snd] in H.
+  destruct H as [->|[t [Hw ->]]]; [left; reflexivity|right; exists t; split; [exact Hw|reflexivity]].
+Qed.
+
+(* ---- the retry path ---- *)
+Lemma run_for_cons t l locs s adds :
+  run_for s t (l :: locs) adds =
+  match run_for s t [l] adds with
+  | (s1, adds1, None) => run_for s1 t locs adds1
+  | (s1, adds1, Some r) => (s1, adds1, Some r)
+  end.
+Proof.
+  cbn [run_for]. destruct (poisoned s); [reflexivity|]. destruct (dbm_load_appointment (c_db (f_c s)) l); [|reflexivity].
+  destruct (next_reply adds) as [rp adds1]. destruct rp; try reflexivity.
+  - destruct (wt_add_appointment_receipt _ _ _ _ _ _ _) as [c2 r2]. destruct (lift_site r2); [reflexivity|].
+    destruct (wt_remove_pending_appointment c2 t l) as [c3 r3]. destruct (lift_site r3); reflexivity.
+  - destruct (wt_add_invalid_appointment _ _ _ _ _) as [c2 r2]. destruct (lift_site r2); [reflexivity|].
+    destruct (wt_remove_pending_appointment c2 t l) as [c3 r3]. destruct (lift_site r3); reflexivity.
+Qed.
+
+Lemma pending_body d t l : DbInv d -> Prow d t l -> exists b, dbm_load_appointment d l = Some b.
+Proof.
+  intros [[Hfk Hpk] _] [row [A [B C]]]. destruct (fk_pending_body d row Hfk A) as [b [Hb Eb]].
+  exists b. unfold dbm_load_appointment. apply (find_pk_unique d T_appointments [l] b Hpk Hb). cbn. f_equal. rewrite <- B, <- Eb. reflexivity.
+Qed.
+
+Lemma run_for_one_no_abort t l s adds :
+  RunPre s t -> In l (retrier_pending s t) -> no_abort (snd (run_for s t [l] adds)).
+Proof.
+  intros [HF [Hp [Hk Hrun]]] Hl. pose proof HF as [HI [HD [HV HT]]]. destruct (HV Hp) as [V1 [V2 _]].
+  assert (HPl : Prow (c_db (f_c s)) t l) by (apply V2; [exact Hk|]; rewrite tracked_eq; apply in_or_app; left; exact Hl).
+  cbn [run_for]. rewrite Hp. destruct (pending_body _ t l (proj1 HI) HPl) as [body ->].
+  set (s1 := log_req s (ReqAdd t l)).
+  assert (HF1 : FInv s1) by (apply (FInv_core s); auto).
+  destruct (next_reply adds) as [rp adds1]. destruct rp; cbn [snd no_abort]; try exact I.
+  - rewrite f_c_retrier_drop.
+    pose proof (add_receipt_ok (f_c s1) t l slots START_BLOCK USER_SIG SIG_TOWER HI Hp Hk) as Hok.
+    destruct (wt_add_appointment_receipt (f_c s1) t l slots START_BLOCK USER_SIG SIG_TOWER) as [c2 r2] eqn:E2. cbn [snd] in Hok. subst r2.
+    destruct (add_receipt_spec_for_move _ _ _ _ _ _ HI Hp Hk E2) as [S1 [S2 [S3 [S4 [S5 [S6 S7]]]]]].
+    pose proof (FInv_move_generic s1 t l 0 c2 ROk HF1 Hp Hk Hrun Hl (or_introl eq_refl) S1 S2 S3 S4 S5 S6 S7) as Hmove.
+    cbn [lift_site] in *. destruct (wt_remove_pending_appointment c2 t l) as [c3 r3]. cbn [fst snd] in Hmove. destruct Hmove as [M1 _]. rewrite M1. exact I.
+  - rewrite f_c_retrier_drop.
+    pose proof (add_invalid_ok (f_c s1) t l (col body C_appointments_encrypted_blob) (col body C_appointments_to_self_delay) HI Hp Hk) as Hok.
+    destruct (wt_add_invalid_appointment (f_c s1) t l (col body C_appointments_encrypted_blob) (col body C_appointments_to_self_delay)) as [c2 r2] eqn:E2.
+    cbn [snd] in Hok. subst r2.
+    destruct (add_invalid_spec_for_move _ _ _ _ _ _ _ HI Hp Hk E2) as [S1 [S2 [S3 [S4 [S5 [S6 S7]]]]]].
+    pose proof (FInv_move_generic s1 t l 2 c2 ROk HF1 Hp Hk Hrun Hl (or_intror eq_refl) S1 S2 S3 S4 S5 S6 S7) as Hmove.
+    cbn [lift_site] in *. destruct (wt_remove_pending_appointment c2 t l) as [c3 r3]. cbn [fst snd] in Hmove. destruct Hmove as [M1 _]. rewrite M1. exact I.
+Qed.
+
+Lemma run_for_no_abort t : forall locs s adds,
+  RunPre s t -> NoDup locs -> (forall l, In l locs -> In l (retrier_pending s t)) -> no_abort (snd (run_for s t locs adds)).
+Proof.
+  induction locs as [|l locs IH]; intros s adds Hpre Hnd Hsub; [exact I|].
+  rewrite run_for_cons. inversion Hnd as [|? ? Hnl Hnd']. subst.
+  pose proof (run_for_one_no_abort t l s adds Hpre (Hsub l (or_introl eq_refl))) as H1.
+  destruct (run_for s t [l] adds) as [[s1 adds1] r1] eqn:E1. cbn [snd] in H1.
+  destruct r1 as [r|]; [exact H1|].
+  assert (Hnd1 : NoDup [l]) by (constructor; [intros []|constructor]).
+  destruct (FInv_run_for t [l] s adds s1 adds1 None Hpre Hnd1) as [A [B [C [D _]]]]; [intros x [<-|[]]; apply Hsub; left; reflexivity|exact E1|].
+  destruct (B I) as [Hp1 Hk1]. destruct Hpre as [HF [Hp [Hk Hrun]]].
+  apply IH; [|exact Hnd'|].
+  - split; [exact A|]. split; [exact Hp1|]. split; [apply Hk1, Hk|].
+    pose proof (run_for_same t [l] s adds) as [_ Hs]. rewrite E1 in Hs. cbn [fst] in Hs. rewrite Hs. exact Hrun.
+  - (* the remaining locators are still in the retrier's set *)
+    intros x Hx.
+    destruct (run_for_log t [l] s adds s1 adds1 None E1) as [dn [rest [Hsplit [_ Hrest]]]].
+    (* the set only lost l *)
+    clear - E1 Hx Hsub Hnl Hp. cbn [run_for] in E1. unfold poisoned in Hp. unfold poisoned in E1. rewrite Hp in E1.
+    destruct (dbm_load_appointment (c_db (f_c s)) l); [|discriminate]. destruct (next_reply adds) as [rp a1]. destruct rp; try discriminate.
+    + destruct (wt_add_appointment_receipt _ _ _ _ _ _ _) as [c2 r2]. destruct (lift_site r2); [discriminate|].
+      destruct (wt_remove_pending_appointment c2 t l) as [c3 r3]. destruct (lift_site r3); [discriminate|]. inversion E1. subst.
+      change (retrier_pending (wr_c (wr_c (retrier_drop (log_req s (ReqAdd t l)) t l) c2) c3) t) with (retrier_pending (retrier_drop (log_req s (ReqAdd t l)) t l) t).
+      rewrite retrier_pending_drop, N.eqb_refl. apply In_set_remove. split; [apply (Hsub x); right; exact Hx|]. intros ->. contradiction.
+    + destruct (wt_add_invalid_appointment _ _ _ _ _) as [c2 r2]. destruct (lift_site r2); [discriminate|].
+      destruct (wt_remove_pending_appointment c2 t l) as [c3 r3]. destruct (lift_site r3); [discriminate|]. inversion E1. subst.
+      change (retrier_pending (wr_c (wr_c (retrier_drop (log_req s (ReqAdd t l)) t l) c2) c3) t) with (retrier_pending (retrier_drop (log_req s (ReqAdd t l)) t l) t).
+      rewrite retrier_pending_drop, N.eqb_refl. apply In_set_remove. split; [apply (Hsub x); right; exact Hx|]. intros ->. contradiction.
+Qed.
+
+(* registration / renewal never aborts in a state of the invariant *)
+Lemma store_tower_succeeds c t addr slots start expiry sg :
+  Inv c -> c_poisoned c = false ->
+  (forall su, aget (c_towers c) t = Some su -> (su_expiry su < expiry)%N) ->
+  exists d', dbm_store_tower_record (c_db c) t addr slots start expiry sg = DbOk d'.
+Proof.
+  intros [HD HM] Hp Hexp. destruct (HM Hp) as [M1 M2]. unfold dbm_store_tower_record. rewrite mkrow_rr, mkrow_towers.
+  pose proof (DbInv_len _ HD) as L.
+  assert (Hnorr : has_pk CS (c_db c) T_registration_receipts [t; expiry] = false).
+  { destruct (has_pk CS (c_db c) T_registration_receipts [t; expiry]) eqn:E; [|reflexivity]. exfalso.
+    apply has_pk_true in E. destruct E as [row [A B]]. cbn in B. inversion B as [[B1 B2]].
+    destruct HD as [[Hfk _] _]. destruct (fk_rr_tower _ row Hfk A) as [tr [Htr Etr]].
+    destruct (aget (c_towers c) t) as [su|] eqn:Et.
+    - destruct (M1 t su Et) as [tr0 [rr [_ [Hmax [_ [_ [_ [Eexp _]]]]]]]]. specialize (Hexp su eq_refl).
+      rewrite max_receipt_fold in Hmax. pose proof (fold_rr_spec t (tbl (c_db c) T_registration_receipts) None) as Hs.
+      rewrite Hmax in Hs. destruct Hs as [_ [_ [_ Hle]]]; [intros b Hb; discriminate|].
+      assert (Hr1 : col row C_registration_receipts_tower_id = t) by exact B1.
+      assert (Hr2 : col row C_registration_receipts_subscription_expiry = expiry) by exact B2.
+      specialize (Hle row A Hr1). rewrite Hr2 in Hle. rewrite Eexp in Hexp. lia.
+    - apply M2 in Et. apply (proj1 (find_pk_None (c_db c) T_towers [t]) Et tr Htr). cbn.
+      assert (Hr1 : col row C_registration_receipts_tower_id = t) by exact B1. f_equal. change (nth 0 tr 0) with (col tr C_towers_tower_id). congruence. }
+  destruct (has_pk CS (c_db c) T_towers [t]) eqn:Eh.
+  - destruct (db_update CS (c_db c) T_towers [t] [(C_towers_net_addr, addr); (C_towers_available_slots, slots)] false) as [d1|e] eqn:E1.
+    2:{ unfold db_update in E1. cbn in E1. discriminate. }
+    pose proof (tbl_update CS _ _ _ _ _ d1 E1) as [O1 [L1 T1]].
+    apply db_insert_succeeds.
+    + rewrite L1, L. unfold T_registration_receipts. lia.
+    + reflexivity.
+    + unfold has_pk. rewrite O1 by discriminate. exact Hnorr.
+    + cbn [ts_fks tsch CS client_schema nth T_registration_receipts forallb]. rewrite andb_true_r.
+      apply parent_present_iff. cbn [fk_parent fk_pcols fk_cols].
+      apply has_pk_true in Eh. destruct Eh as [tr [A B]].
+      exists (upd_tower t addr slots tr). split.
+      * change 0%nat with T_towers. rewrite T1 by (rewrite L; unfold T_towers; lia). apply in_map_iff. exists tr. split; [reflexivity|exact A].
+      * cbn in B. inversion B as [B1].
+        change (proj (upd_tower (nth 0 tr 0) addr slots tr) [0%nat]) with [col (upd_tower (nth 0 tr 0) addr slots tr) C_towers_tower_id].
+        rewrite upd_tower_key. reflexivity.
+  - destruct (db_insert_succeeds (c_db c) T_towers [t; addr; slots]) as [d1 E1].
+    + rewrite L. unfold T_towers. lia.
+    + reflexivity.
+    + exact Eh.
+    + reflexivity.
+    + rewrite E1. pose proof (tbl_insert CS _ _ _ d1 E1) as [T1 [O1 L1]]. apply db_insert_succeeds.
+      * rewrite L1, L. unfold T_registration_receipts. lia.
+      * reflexivity.
+      * unfold has_pk. rewrite O1 by discriminate. exact Hnorr.
+      * cbn [ts_fks tsch CS client_schema nth T_registration_receipts forallb]. rewrite andb_true_r.
+        apply parent_present_iff. cbn [fk_parent fk_pcols fk_cols]. exists [t; addr; slots]. split; [|reflexivity].
+        unfold T_towers in T1. rewrite T1. apply in_or_app. right. left. reflexivity.
+Qed.
+
+Lemma load_tower_record_known c t su : Inv c -> c_poisoned c = false -> aget (c_towers c) t = Some su ->
+  exists info, load_tower_record (c_db c) t = LSome info.
+Proof.
+  intros [HD HM] Hp Et. destruct (proj1 (HM Hp) t su Et) as [tr [rr [A [B _]]]]. unfold load_tower_record. rewrite A, B.
+  destruct (find_pk CS (c_db c) T_misbehaving_proofs [t]) as [prow|] eqn:Ep; [|eexists; reflexivity].
+  apply find_pk_Some in Ep. destruct Ep as [Hin Hkey]. destruct HD as [[Hfk Hpk] _].
+  destruct (fk_proof_receipt _ prow Hfk Hin) as [rc [Hrc [E1 E2]]].
+  assert (Ht : col prow C_misbehaving_proofs_tower_id = t) by (cbn in Hkey; inversion Hkey; reflexivity).
+  assert (Hf : find_pk CS (c_db c) T_appointment_receipts [col prow C_misbehaving_proofs_locator; t] = Some rc).
+  { apply (find_pk_unique _ T_appointment_receipts _ rc Hpk Hrc).
+    change (proj rc (ts_pk (tsch CS T_appointment_receipts))) with [col rc C_appointment_receipts_locator; col rc C_appointment_receipts_tower_id].
+    rewrite E1, E2, Ht. reflexivity. }
+  rewrite Hf. eexists. reflexivity.
+Qed.
+
+Lemma add_update_tower_ok c t addr slots start expiry sg : Inv c -> c_poisoned c = false ->
+  is_abort (snd (wt_add_update_tower c t addr slots start expiry sg)) = false.
+Proof.
+  intros HI Hp. unfold wt_add_update_tower.
+  assert (Hstore : (forall su, aget (c_towers c) t = Some su -> (su_expiry su < expiry)%N) ->
+    is_abort (snd (match dbm_store_tower_record (c_db c) t addr slots start expiry sg with
+                   | DbOk d' => (with_towers (with_db c d') (aset (c_towers c) t
+                        match aget (c_towers c) t with
+                        | Some s => {| su_addr := addr; su_slots := slots; su_start := start; su_expiry := expiry; su_status := su_status s; su_pending := su_pending s; su_invalid := su_invalid s |}
+                        | None => {| su_addr := addr; su_slots := slots; su_start := start; su_expiry := expiry; su_status := Reachable; su_pending := []; su_invalid := [] |}
+                        end), ROk)
+                   | DbErr _ => (poison c, RAbort Site_store_tower_record_unwrap)
+                   end)) = false).
+  { intros Hexp. destruct (store_tower_succeeds c t addr slots start expiry sg HI Hp Hexp) as [d' ->]. reflexivity. }
+  destruct (aget (c_towers c) t) as [su|] eqn:Et.
+  - destruct (N.leb expiry (su_expiry su)) eqn:El; [reflexivity|]. apply N.leb_gt in El.
+    destruct (load_tower_record_known c t su HI Hp Et) as [info ->].
+    destruct (N.leb slots (ti_slots info)); [reflexivity|]. apply Hstore. intros su0 H. inversion H. subst. exact El.
+  - apply Hstore. intros su0 H. discriminate.
+Qed.
+
+
+(* the locator a wrong-key reply was about is still in the retrier's set when run returns *)
+Lemma run_for_misbehaving t : forall locs s adds s' adds' l0,
+  (forall l, In l locs -> In l (retrier_pending s t)) -> NoDup locs ->
+  run_for s t locs adds = (s', adds', Some (RunErr (EMisbehaving l0))) -> In l0 (retrier_pending s' t).
+Proof.
+  induction locs as [|l locs IH]; intros s adds s' adds' l0 Hsub Hnd E; [discriminate|].
+  rewrite run_for_cons in E. inversion Hnd as [|? ? Hnl Hnd']. subst.
+  destruct (run_for s t [l] adds) as [[s1 adds1] r1] eqn:E1.
+  cbn [run_for] in E1. destruct (poisoned s); [inversion E1; subst; discriminate|].
+  destruct (dbm_load_appointment (c_db (f_c s)) l); [|inversion E1; subst; discriminate].
+  destruct (next_reply adds) as [rp a1].
+  assert (Hcont : forall sx, (forall k, retrier_pending sx k = retrier_pending (retrier_drop (log_req s (ReqAdd t l)) t l) k) ->
+            run_for sx t locs adds1 = (s', adds', Some (RunErr (EMisbehaving l0))) -> In l0 (retrier_pending s' t)).
+  { intros sx Hx Ex. apply (IH sx adds1 s' adds' l0); [|exact Hnd'|exact Ex].
+    intros x Hin. rewrite Hx, retrier_pending_drop, N.eqb_refl. apply In_set_remove. split; [apply Hsub; right; exact Hin|]. intros ->. contradiction. }
+  destruct rp; try (inversion E1; subst; discriminate).
+  - destruct (wt_add_appointment_receipt _ _ _ _ _ _ _) as [c2 r2]. destruct (lift_site r2); [inversion E1; subst; discriminate|].
+    destruct (wt_remove_pending_appointment c2 t l) as [c3 r3]. destruct (lift_site r3); [inversion E1; subst; discriminate|].
+    inversion E1. subst. eapply Hcont; [|exact E]. reflexivity.
+  - inversion E1. subst. inversion E. subst. apply Hsub. left. reflexivity.
+  - destruct (wt_add_invalid_appointment _ _ _ _ _) as [c2 r2]. destruct (lift_site r2); [inversion E1; subst; discriminate|].
+    destruct (wt_remove_pending_appointment c2 t l) as [c3 r3]. destruct (lift_site r3); [inversion E1; subst; discriminate|].
+    inversion E1. subst. eapply Hcont; [|exact E]. reflexivity.
+Qed.
+
+Lemma run_while_no_abort t hint : forall fuel s adds,
+  RunPre s t ->
+  (match snd (run_while fuel s t hint adds) with RunAbort _ => False | _ => True end) /\
+  (forall l0, snd (run_while fuel s t hint adds) = RunErr (EMisbehaving l0) -> In l0 (retrier_pending (fst (run_while fuel s t hint adds)) t)).
+Proof.
+  induction fuel as [|f IH]; intros s adds Hpre; cbn [run_while]; [split; [exact I|discriminate]|].
+  destruct (retrier_pending s t) as [|x p] eqn:Ep; [split; [exact I|discriminate]|].
+  pose proof Hpre as [HF [Hp [Hk Hrun]]].
+  assert (Hnd : NoDup (x :: p)).
+  { destruct HF as [_ [_ [HV _]]]. destruct (HV Hp) as [_ [_ [_ [V4 _]]]]. unfold retrier_pending in Ep.
+    destruct (aget (f_mgr s) t) as [r|] eqn:Er; [|discriminate]. rewrite <- Ep. eapply V4, Er. }
+  pose proof (NoDup_reorder hint _ Hnd) as Hndr.
+  assert (Hsub : forall l, In l (reorder hint (x :: p)) -> In l (retrier_pending s t)) by (intros l Hl; rewrite Ep; apply In_reorder in Hl; exact Hl).
+  pose proof (run_for_no_abort t _ s adds Hpre Hndr Hsub) as Hna.
+  destruct (run_for s t (reorder hint (x :: p)) adds) as [[s1 adds1] r1] eqn:E1. cbn [snd] in Hna.
+  destruct (FInv_run_for t _ s adds s1 adds1 r1 Hpre Hndr Hsub E1) as [A [B _]].
+  destruct r1 as [r|]; cbn [fst snd].
+  - split; [destruct r; auto|]. intros l0 ->. eapply run_for_misbehaving; [exact Hsub|exact Hndr|exact E1].
+  - destruct (B I) as [Hp1 Hk1]. apply IH. split; [exact A|]. split; [exact Hp1|]. split; [apply Hk1, Hk|].
+    pose proof (run_for_same t (reorder hint (x :: p)) s adds) as [_ Hs]. rewrite E1 in Hs. cbn [fst] in Hs. rewrite Hs. exact Hrun.
+Qed.
+
+Lemma run_attempt_no_abort s t a :
+  FInv s -> poisoned s = false -> rstat s t = Some RRunning ->
+  (match snd (run_attempt s t a) with RunAbort _ => False | _ => True end) /\
+  (forall l0, snd (run_attempt s t a) = RunErr (EMisbehaving l0) -> In l0 (retrier_pending (fst (run_attempt s t a)) t)).
+Proof.
+  intros HF Hp Hrun. unfold run_attempt. rewrite Hp.
+  destruct (aget (c_towers (f_c s)) t) as [su|] eqn:Et; [|split; [exact I|discriminate]].
+  assert (Hk : knownc (f_c s) t) by (unfold knownc, amem; rewrite Et; reflexivity).
+  destruct (is_subscription_error (su_status su)).
+  2:{ apply run_while_no_abort. exact (conj HF (conj Hp (conj Hk Hrun))). }
+  set (s1 := log_req s (ReqRegister t)).
+  assert (HF1 : FInv s1) by (apply (FInv_core s); auto).
+  destruct (at_reg a) as [slots start expiry sig_ok| | | |]; cbn [fst snd]; try (split; [exact I|discriminate]).
+  destruct (negb sig_ok); cbn [fst snd]; [split; [exact I|discriminate]|].
+  pose proof (add_update_tower_ok (f_c s1) t (su_addr su) slots start expiry REG_SIG (proj1 HF) Hp) as Hok.
+  destruct (wt_add_update_tower (f_c s1) t (su_addr su) slots start expiry REG_SIG) as [c' r] eqn:Eu. cbn [snd] in Hok.
+  destruct (FInv_renew s1 t _ _ _ _ _ c' r HF1 Hp Hk Eu) as [HF2 Hok2]. destruct (Hok2 Hok) as [Hp2 Hkn2].
+  destruct r; cbn [fst snd]; try (split; [exact I|discriminate]); [|discriminate Hok].
+  apply run_while_no_abort. split; [exact HF2|]. split; [exact Hp2|]. split; [apply Hkn2, Hk|exact Hrun].
+Qed.
+
+Lemma task_step_abort s t r more site :
+  FInv s -> poisoned s = false ->
+  (match r with RunAbort _ => False | _ => True end) ->
+  (forall l0, r = RunErr (EMisbehaving l0) -> In l0 (retrier_pending s t)) ->
+  snd (task_step s t r more) = OutAbort site -> site = PROOF_SITE /\ Mrow (c_db (f_c s)) t.
+Proof.
+  intros HF Hp Hna Hl0. unfold task_step. destruct r as [|e|st|]; cbn [snd]; try discriminate; [|contradiction].
+  destruct (negb (is_permanent e) && more); [discriminate|].
+  set (s1 := if is_permanent e then retrier_set_status s t RFailed else s).
+  assert (Ec1 : f_c s1 = f_c s) by (unfold s1; destruct (is_permanent e); [apply f_c_retrier_set_status|reflexivity]).
+  destruct e as [[|]| |l|]; cbn [snd]; try discriminate.
+  rewrite Ec1. destruct (wt_flag_misbehaving_tower (f_c s) t l START_BLOCK USER_SIG SIG_OTHER (other_id t)) as [c2 r2] eqn:E2.
+  destruct r2; cbn [lift_site snd]; try discriminate. intros H. inversion H. subst site. clear H.
+  pose proof (flag_abort_site (f_c s) t l START_BLOCK USER_SIG SIG_OTHER (other_id t) s0) as Hs. rewrite E2 in Hs. cbn [snd] in Hs. rewrite (Hs eq_refl).
+  split; [reflexivity|].
+  destruct (classic_Mrow (c_db (f_c s)) t) as [Hm|Hm]; [exact Hm|]. exfalso.
+  pose proof HF as [HI [[_ [U _]] [HV _]]]. destruct (HV Hp) as [_ [V2 _]].
+  assert (Hk : knownc (f_c s) t).
+  { unfold knownc, amem. unfold wt_flag_misbehaving_tower in E2. destruct (aget (c_towers (f_c s)) t); [reflexivity|inversion E2]. }
+  assert (HP : Prow (c_db (f_c s)) t l).
+  { apply V2; [exact Hk|]. rewrite tracked_eq. apply in_or_app. left. apply Hl0. reflexivity. }
+  assert (HR : ~ Rrow (c_db (f_c s)) t l) by (destruct (U t l Hm) as [A _]; tauto).
+  pose proof (flag_ok (f_c s) t l START_BLOCK USER_SIG SIG_OTHER (other_id t) HI Hp Hk HR Hm) as Hok. rewrite E2 in Hok. discriminate.
+Qed.
+
+Lemma task_step_not_running s t r more :
+  TaskInv s -> In t (f_tasks s) ->
+  match snd (task_step s t r more) with
+  | OutDelivered | OutIdle _ | OutFailed _ => rstat (fst (task_step s t r more)) t <> Some RRunning /\ ~ In t (f_tasks (fst (task_step s t r more)))
+  | _ => True
+  end.
+Proof.
+  intros [Hnd HT] Hin. pose proof (HT t Hin) as Hrun. unfold rstat in Hrun. destruct (aget (f_mgr s) t) as [r0|] eqn:Er; [|discriminate].
+  assert (Hnot : forall x, f_tasks x = f_tasks s -> ~ In t (f_tasks (end_task x t))).
+  { intros x Hx. cbn. rewrite Hx. apply (remove_one_NoDup t _ Hnd). }
+  unfold task_step. destruct r as [|e|site|]; cbn [fst snd]; try exact I.
+  - split; [|apply Hnot; rewrite retrier_set_status_tasks; reflexivity].
+    change (rstat (end_task (retrier_set_status (set_c s (with_retriers (wt_set_tower_status (f_c s) t Reachable) (aremove (c_retriers (wt_set_tower_status (f_c s) t Reachable)) t))) t RStopped) t) t)
+      with (rstat (retrier_set_status (set_c s (with_retriers (wt_set_tower_status (f_c s) t Reachable) (aremove (c_retriers (wt_set_tower_status (f_c s) t Reachable)) t))) t RStopped) t).
+    rewrite rstat_retrier_set_status, N.eqb_refl. unfold rstat. cbn [f_mgr set_c]. rewrite Er. cbn. discriminate.
+  - destruct (negb (is_permanent e) && more); [exact I|].
+    set (s1 := if is_permanent e then retrier_set_status s t RFailed else s).
+    assert (Hs1 : f_tasks s1 = f_tasks s /\ (is_permanent e = true -> rstat s1 t = Some RFailed)).
+    { unfold s1. destruct (is_permanent e); [|split; [reflexivity|discriminate]]. split; [apply retrier_set_status_tasks|].
+      intros _. rewrite rstat_retrier_set_status, N.eqb_refl. unfold rstat. rewrite Er. reflexivity. }
+    destruct Hs1 as [Ht1 Hf1].
+    destruct e as [[|]| |l|]; cbn [fst snd].
+    + split; [|apply Hnot; exact Ht1]. change (rstat (end_task (set_c s1 (wt_set_tower_status (f_c s1) t SubscriptionError)) t) t) with (rstat s1 t).
+      rewrite (Hf1 eq_refl). discriminate.
+    + split; [|apply Hnot; rewrite retrier_clear_tasks, retrier_set_status_tasks; exact Ht1].
+      match goal with |- rstat (end_task ?x t) t <> _ => change (rstat (end_task x t) t) with (rstat x t) end.
+      rewrite rstat_retrier_clear, rstat_retrier_set_status, N.eqb_refl.
+      match goal with |- option_map _ (rstat ?x t) <> _ => change (rstat x t) with (rstat s1 t) end.
+      unfold s1. cbn [is_permanent]. unfold rstat. rewrite Er. cbn. discriminate.
+    + split; [|apply Hnot; rewrite retrier_clear_tasks, retrier_set_status_tasks; exact Ht1].
+      match goal with |- rstat (end_task ?x t) t <> _ => change (rstat (end_task x t) t) with (rstat x t) end.
+      rewrite rstat_retrier_clear, rstat_retrier_set_status, N.eqb_refl.
+      match goal with |- option_map _ (rstat ?x t) <> _ => change (rstat x t) with (rstat s1 t) end.
+      unfold s1. cbn [is_permanent]. unfold rstat. rewrite Er. cbn. discriminate.
+    + destruct (wt_flag_misbehaving_tower (f_c s1) t l START_BLOCK USER_SIG SIG_OTHER (other_id t)) as [c2 r2].
+      destruct (lift_site r2); cbn [fst snd]; [exact I|]. split; [|apply Hnot; exact Ht1].
+      change (rstat (end_task (wr_c s1 c2) t) t) with (rstat s1 t). rewrite (Hf1 eq_refl). discriminate.
+    + split; [|apply Hnot; exact Ht1]. change (rstat (end_task s1 t) t) with (rstat s1 t). rewrite (Hf1 eq_refl). discriminate.
+Qed.
+
+Lemma register_no_abort s t rp : Inv (f_c s) -> poisoned s = false -> forall site, snd (f_register s t t rp) <> OPanic site.
+Proof.
+  intros HI Hp site. unfold f_register. rewrite Hp. destruct rp as [slots start expiry sig_ok| | | |]; cbn [snd]; try discriminate.
+  destruct (negb sig_ok); [discriminate|].
+  pose proof (add_update_tower_ok (f_c (log_req s (ReqRegister t))) t t slots start expiry REG_SIG HI Hp) as Hok.
+  destruct (wt_add_update_tower (f_c (log_req s (ReqRegister t))) t t slots start expiry REG_SIG) as [c' r]. cbn [snd] in Hok.
+  destruct r; cbn [snd]; try discriminate.
+Qed.
+
+(* C14 no_reply_aborts, strongest true form: in every state of every guarded operation sequence, whatever a tower
+   replies to register / add_appointment, on the notification path and on the retry path, nothing panics and the
+   model's fuel is never exhausted — with ONE exception: the acknowledgement signed with another key coming from a
+   tower whose misbehaviour proof is ALREADY stored (flag_misbehaving_tower unwraps the duplicate insert) *)
+Theorem no_reply_aborts ops :
+  ops_fresh f_init ops = true -> let s := frun f_init ops in poisoned s = false ->
+  (forall t rp site, snd (fstep s (FRegister t rp)) <> OPanic site) /\
+  (forall l order replies, snd (fstep s (FRevocation l order replies)) = OOk \/
+       exists t, reply_for replies t = AWrongKey /\ snd (fstep s (FRevocation l order replies)) = OPanic PROOF_SITE) /\
+  (forall t a, In t (f_tasks s) ->
+     let s1 := fst (run_attempt s t a) in let r := snd (run_attempt s t a) in
+     (match r with RunAbort _ | RunFuel => False | _ => True end) /\
+     (forall site, snd (task_step s1 t r (at_more a)) = OutAbort site -> site = PROOF_SITE /\ Mrow (c_db (f_c s1)) t) /\
+     (match snd (task_step s1 t r (at_more a)) with
+      | OutDelivered | OutIdle _ | OutFailed _ =>
+        rstat (fst (task_step s1 t r (at_more a))) t <> Some RRunning /\ ~ In t (f_tasks (fst (task_step s1 t r (at_more a))))
+      | _ => True end)).
+Proof.
+  intros Hg s Hp. pose proof (FInv_frun ops f_init FInv_init Hg) as HF. fold s in HF.
+  split; [intros t rp site; cbn [fstep]; apply register_no_abort; [apply HF|exact Hp]|].
+  split; [intros l order replies; cbn [fstep]; apply revocation_no_abort; assumption|].
+  intros t a Hin s1 r.
+  assert (Hrun : rstat s t = Some RRunning) by (apply HF, Hin).
+  destruct (run_attempt_no_abort s t a HF Hp Hrun) as [Hna Hmis]. fold r in Hna, Hmis. fold s1 in Hmis.
+  destruct (run_attempt s t a) as [sx rx] eqn:E1. cbn [fst snd] in s1, r. subst s1 r.
+  destruct (FInv_run_attempt s t a sx rx HF Hrun E1) as [HF1 [Hnp _]].
+  assert (Hnf : rx <> RunFuel).
+  { pose proof (run_bounded ops t a Hg Hin) as [_ [Hb _]]. fold s in Hb. rewrite E1 in Hb. exact Hb. }
+  split; [destruct rx; auto|]. split.
+  - intros site Ho. apply (task_step_abort sx t rx (at_more a) site HF1 (Hnp Hna) Hna Hmis Ho).
+  - apply task_step_not_running; [apply HF1|].
+    pose proof (run_attempt_same s t a) as [Ht _]. rewrite E1 in Ht. cbn [fst] in Ht. rewrite Ht. exact Hin.
+Qed.
